@@ -1,3 +1,84 @@
+//! C14 - Supply lanes, command lanes and agent-sent commands are never coalesced.
+//! Engine E1 over the agent-system harness.
+
+use asys::grid::{grid, replay, run_grid, GridSpec};
+use asys::oracle::{check_c01, check_c04, check_c14};
+use asys::scripts::*;
+use asys::world::{set_checker, Mode, Observation, Step};
+use vcommon::Ctx;
+
+fn checker(obs: &Observation) -> Vec<(String, String)> {
+    let mut v = check_c14(obs);
+    // a value lane sharing the slow remote's writer must still satisfy C01
+    v.extend(check_c01(obs));
+    for (s, e) in check_c04(obs) {
+        if s.contains("never produced") || s.contains("undecodable") {
+            v.push((s, e));
+        }
+    }
+    v
+}
+
+fn push(xs: &[i32]) -> Step {
+    let ops: Vec<String> = xs.iter().map(|x| format!("@push({})", x)).collect();
+    let refs: Vec<&str> = ops.iter().map(|s| s.as_str()).collect();
+    act(&refs)
+}
+
+fn send(items: &[(&str, i32, bool)]) -> Step {
+    let ops: Vec<String> = items.iter().map(|(t, v, ow)| format!("@send{{node:\"{}\",lane:x,value:{},ow:{}}}", t, v, ow)).collect();
+    let refs: Vec<&str> = ops.iter().map(|s| s.as_str()).collect();
+    act(&refs)
+}
+
+fn scripts(quick: bool) -> Vec<(Vec<(usize, Step)>, usize)> {
+    let mut out: Vec<(Vec<(usize, Step)>, usize)> = vec![];
+    // supply bursts far larger than the remote's 8 byte channel
+    out.push((sequential(&[vec![link("s"), push(&[1, 2, 3, 4, 5, 6])]]), 1));
+    out.push((sequential(&[vec![link("s"), push(&[1, 2, 3]), unlink("s"), push(&[4]), link("s"), push(&[5, 6])]]), 1));
+    out.push((sequential(&[vec![sync("s"), push(&[1, 2]), push(&[3, 4])]]), 1));
+    // supply and value lane share one slow remote
+    out.push((sequential(&[vec![link("s"), link("v"), act(&["@push(1)", "@setv(100)", "@push(2)", "@setv(101)", "@push(3)"])]]), 1));
+    // a second remote links in the middle of the burst
+    for s in interleavings(&[vec![link("s"), push(&[1, 2, 3]), push(&[4, 5, 6])], vec![link("s")]]) {
+        out.push((s, 2));
+    }
+    // command lane: two remotes
+    let a = vec![cmd("k", "1"), cmd("k", "2"), cmd("k", "3")];
+    let b = vec![cmd("k", "11"), cmd("k", "12")];
+    let all = interleavings(&[a.clone(), b.clone()]);
+    let step = if quick { 3 } else { 1 };
+    for (i, s) in all.into_iter().enumerate() {
+        if i % step == 0 {
+            out.push((s, 2));
+        }
+    }
+    // agent-sent commands: two targets, mixed overwrite flags
+    out.push((sequential(&[vec![send(&[("/t1", 1, false), ("/t1", 2, true), ("/t1", 3, false)])]]), 1));
+    out.push((sequential(&[vec![send(&[("/t1", 1, true), ("/t2", 2, false), ("/t1", 3, true), ("/t2", 4, true), ("/t1", 5, false)])]]), 1));
+    out.push((sequential(&[vec![send(&[("/t1", 1, false)]), send(&[("/t1", 2, true), ("/t1", 3, true)]), send(&[("/t2", 4, false), ("/t1", 5, true)])]]), 1));
+    out
+}
+
 fn main() {
-    vcommon::machinery_failure("C14: engine not built yet");
+    let ctx = Ctx::from_env("C14");
+    set_checker(checker);
+    if let Some(r) = ctx.replay_request() {
+        replay(&ctx, r);
+        ctx.finish("model_checking", "replay");
+    }
+    let quick = ctx.quick();
+    let sc = scripts(quick);
+    let modes = [Mode::Eager, Mode::Burst, Mode::SlowRead];
+    let cfgs = grid(&sc, &[8, 16, 4096], &[2, 3, 64], &modes, &[0, 5]);
+    run_grid(&ctx, GridSpec { name: "as-nocoalesce-grid-d1".into(), cfgs, bound: 1, max_exec_per_cfg: 20_000, wall_cap_s: if quick { 25.0 } else { 900.0 } });
+    let core: Vec<_> = sc.iter().filter(|(s, _)| s.len() <= 4).cloned().collect();
+    let cfgs = grid(&core, &[8], &[2, 64], &[Mode::Eager, Mode::SlowRead], &[0, 5]);
+    run_grid(&ctx, GridSpec { name: "as-nocoalesce-core-d2".into(), cfgs, bound: if quick { 2 } else { 3 }, max_exec_per_cfg: if quick { 20_000 } else { 3_000_000 }, wall_cap_s: if quick { 20.0 } else { 1200.0 } });
+    ctx.assume("tokio select! start index and HashMap iteration order are fixed per VERIF_SEED (deterministic interposer), not enumerated");
+    ctx.assume("pushed / commanded values are distinct within a run so that a received item identifies its origin");
+    ctx.finish(
+        "model_checking",
+        "deviation-bounded exhaustive schedule exploration of the real agent+runtime future; exactly-once in-order delivery oracles for supply events, command handler invocations and agent-sent commands",
+    );
 }
